@@ -214,7 +214,7 @@ var plans = map[string]*Plan{
 		},
 		Floor: map[string]int64{"crash_points": 100, "failing_call_injections": 100, "reference_traces": 10},
 		Jobs: func(tier string) []Job {
-			return jobs("crashpt", 16, tierN(tier, 1, 2), "tier="+tier, time.Duration(tierN(tier, 15, 120))*time.Minute)
+			return jobs("crashpt", 16, tierN(tier, 1, 5), "tier="+tier, time.Duration(tierN(tier, 15, 120))*time.Minute)
 		},
 	},
 	"C14": {
